@@ -31,6 +31,9 @@ func (s *Server) Listen(req *signaling.ListenRequest, strm signaling.SRPCSignali
 		tkr.broadcast()
 	}
 	listenNonce := tkr.listenNonce
+	// mark the listen rpc as attached: keeps the tracker from being released
+	// by maybeReleasePeer while we are using it.
+	tkr.listening = true
 	s.mtx.Unlock()
 
 	// Cleanup when we exit
